@@ -25,12 +25,12 @@ func init() {
 		Assume:    []string{"a big step runs one thread alone between two named stopping points (finer interleavings: E1-ICB drivers)", "entry pool off"},
 		Quick: []Scenario{
 			mk("m1-2c", 8, "12", 60), mk("m2-cost", 8, "9", 60), mk("m2-ttl", 16, "8", 60), mk("m3-3c", 8, "9", 60), mk("m2-q1", 8, "9", 60),
-			rd("m3-reads", 8, "14", 60),
+			rd("m3-reads", 8, "14", 60), mk("m3-loading", 8, "8", 60),
 			icb("ttl-window", 8, "2", 60), icb("ttl-window-new", 8, "2", 60), icb("cost-updates", 8, "2", 60),
 		},
 		Thorough: []Scenario{
 			mk("m1-2c", 16, "10", 600), mk("m2-cost", 16, "9", 600), mk("m2-ttl", 16, "9", 600), mk("m3-3c", 16, "9", 600), mk("m2-q1", 16, "9", 600),
-			rd("m3-reads", 16, "18", 600),
+			rd("m3-reads", 16, "18", 600), mk("m3-loading", 16, "10", 600),
 			icb("ttl-window", 16, "3", 900), icb("ttl-window-new", 16, "3", 900), icb("cost-updates", 16, "3", 900),
 		},
 	})
